@@ -1027,12 +1027,13 @@ func (w *worker) explainC11(c *Case, pw, dw string, q query, ordered bool) (stri
 // ---- replay / corpus ---------------------------------------------------------------------------
 
 type fragJSON struct {
-	Kind string `json:"kind"`
-	Key  string `json:"key,omitempty"`
-	N    int    `json:"n,omitempty"`
-	Mem  []any  `json:"mem,omitempty"`
-	S    []int  `json:"s,omitempty"`
-	Scr  *Scr   `json:"scr,omitempty"`
+	Kind    string `json:"kind"`
+	Key     string `json:"key,omitempty"`
+	N       int    `json:"n,omitempty"`
+	Mem     []any  `json:"mem,omitempty"`
+	S       []int  `json:"s,omitempty"`
+	Scr     *Scr   `json:"scr,omitempty"`
+	NoStart bool   `json:"nostart,omitempty"`
 }
 
 type caseJSON struct {
